@@ -33,6 +33,16 @@
 (*   Removal = "skip":  skipped, the others are removed (the code);          *)
 (*   Removal = "abort": the reason to give up - nothing of the list is       *)
 (*     removed (a candidate the forced schedules must tell from "skip").     *)
+(* SetOperation is a check (is the operation's record there?) followed by a  *)
+(* write of three records (body, ordered record under the time of the call,  *)
+(* keys record = where the ordered record is). Two overlapping calls with    *)
+(* the SAME new operation (Set2; the node receives an operation from two     *)
+(* peers at once) are                                                        *)
+(*   SetRace = "unlocked": both past the check before either writes (the     *)
+(*     code: no lock) - two ordered records, the keys record names the one   *)
+(*     written last, the other (`orphan`) can never be taken out again;      *)
+(*   SetRace = "locked": check and write of one call, then the other (which  *)
+(*     returns false) - what "adding is idempotent" asks for.                *)
 (* The statement speaks about one caller; for overlapping calls R0..R6 are   *)
 (* judged per call against facts that do not depend on a linearization       *)
 (* order: the result of a call has no duplicates (R2), its entries are       *)
@@ -49,7 +59,7 @@
 (* caller at its first callback, i.e. right after the snapshot), which logs  *)
 (* what the real calls returned; PoolOpsTrace.tla validates that log         *)
 (* against R0..R6.                                                           *)
-EXTENDS Integers, FiniteSets, Sequences, TLC, Json
+EXTENDS Integers, FiniteSets, Sequences, TLC, Json, Randomization
 
 CONSTANTS Fact,      \* model facts (strings)
           Signer,    \* an operation = a fact signed by a signer (ints)
@@ -63,6 +73,10 @@ CONSTANTS Fact,      \* model facts (strings)
                      \*       caller k+1 starts a call only while callers 1..k are in a call
           NCallers,  \* 0: calls are atomic (one caller); k > 0: callers 1..k, calls = Begin / End steps
           Removal,   \* "skip" | "abort": a hash of the removal list whose record is already gone
+          MaxTwice,  \* at most this many Set2 steps (two overlapping SetOperation calls of one new operation)
+          SetRace,   \* "unlocked" | "locked": what two overlapping stores of one operation leave behind
+          Pick,      \* 0: every (limit, filter) is a successor | n > 0: n random draws per state and caller
+                     \* (-simulate generates every successor of a state before it picks one)
           Emit       \* which states carry their input sequence in `step`: "all" | "terminal" (no step
                      \* enabled any more: the maximal sequences) | "none" (ToJson costs milliseconds)
 
@@ -72,13 +86,14 @@ Callers == 1..NCallers
 
 VARIABLES added,    \* Seq(Op): insertion order
           banned,   \* statement level: operations rejected by the filter of a call that has returned
-          ibanned,  \* implementation level: operations taken out of the ordered index
-          nreset, ncalls,
+          ibanned,  \* implementation level: operations taken out of the ordered index (keys record gone)
+          orphan,   \* implementation level: operations with a second ordered record no keys record names
+          nreset, ncalls, ntwice,
           run,      \* per caller: the call in flight (Begin done, End not yet)
           last,     \* verdict of R0..R6 on the result of the last call
           hist,     \* the input sequence so far
           step      \* output only: ToJson(hist), what the harness replays
-vars == <<added, banned, ibanned, nreset, ncalls, run, last, hist, step>>
+vars == <<added, banned, ibanned, orphan, nreset, ncalls, ntwice, run, last, hist, step>>
 
 Range(s) == {s[i] : i \in 1..Len(s)}
 Pos(o) == CHOOSE i \in 1..Len(added) : added[i] = o       \* o \in Range(added)
@@ -117,7 +132,11 @@ R4c(ret, L, a, n, b, Rej) ==
 
 --------------------------------------------------------------------------------
 (* The code: one pass over the ordered index *)
-Index == SelectSeq(added, LAMBDA o : o \notin ibanned)
+(* the ordered records in key order: per stored operation its orphan record (if any), *)
+(* then the record its keys record names (unless taken out)                           *)
+Index == LET two == [i \in 1..2 * Len(added) |-> [o |-> added[(i + 1) \div 2], main |-> i % 2 = 0]]
+             sel == SelectSeq(two, LAMBDA r : IF r.main THEN r.o \notin ibanned ELSE r.o \in orphan)
+         IN [i \in 1..Len(sel) |-> sel[i].o]
 
 ScanInit == [ops |-> <<>>, fidx |-> [f \in Fact |-> 0], rm |-> <<>>, rejected |-> {}, panic |-> FALSE]
 
@@ -173,8 +192,8 @@ Terminal(a, nr, nc, rn) ==
 Out(h, a, nr, nc, rn) ==
   IF Emit = "all" \/ (Emit = "terminal" /\ Terminal(a, nr, nc, rn)) THEN ToJson(h) ELSE ""
 
-Init == /\ added = <<>> /\ banned = {} /\ ibanned = {}
-        /\ nreset = 0 /\ ncalls = 0
+Init == /\ added = <<>> /\ banned = {} /\ ibanned = {} /\ orphan = {}
+        /\ nreset = 0 /\ ncalls = 0 /\ ntwice = 0
         /\ run = [c \in Callers |-> Idle]
         /\ last = NoVerdict
         /\ hist = <<>>
@@ -189,7 +208,19 @@ Set(o) ==
   /\ hist' = Append(hist, [a |-> "Set", op |-> Id(o), f |-> o.f, ret |-> o \notin Range(added)])
   /\ step' = Out(hist', added', nreset', ncalls, run)
   /\ last' = NoVerdict
-  /\ UNCHANGED <<banned, ibanned, ncalls, run>>
+  /\ UNCHANGED <<banned, ibanned, orphan, ncalls, ntwice, run>>
+
+(* two overlapping SetOperation calls of one new operation: both check, then both write *)
+Set2(o) ==
+  /\ ntwice < MaxTwice /\ ntwice' = ntwice + 1
+  /\ o \notin Range(added) /\ Len(added) < MaxAdd
+  /\ (added = <<>> /\ Sym) => o = CHOOSE x \in Op : TRUE
+  /\ added' = Append(added, o)
+  /\ orphan' = IF SetRace = "unlocked" THEN orphan \cup {o} ELSE orphan
+  /\ hist' = Append(hist, [a |-> "Set2", op |-> Id(o), f |-> o.f])
+  /\ step' = Out(hist', added', nreset, ncalls, run)
+  /\ last' = NoVerdict
+  /\ UNCHANGED <<banned, ibanned, nreset, ncalls, run>>
 
 (* OperationHashes(limit L, filter rejecting Rej) as the code computes it, one caller *)
 Call(L, Rej) ==
@@ -206,7 +237,7 @@ Call(L, Rej) ==
        /\ hist' = Append(hist, [a |-> "Call", l |-> L, rej |-> {Id(o) : o \in Rej},
                                 model |-> IF s.panic THEN <<"panic">> ELSE [i \in 1..Len(s.ops) |-> Id(s.ops[i])]])
   /\ step' = Out(hist', added, nreset, ncalls', run)
-  /\ UNCHANGED <<added, nreset, run>>
+  /\ UNCHANGED <<added, orphan, nreset, ntwice, run>>
 
 (* caller c starts OperationHashes(L, filter rejecting Rej): the iterator's snapshot.    *)
 (* (No guard on what the model believes the index holds: a call that follows calls which *)
@@ -220,7 +251,7 @@ Begin(c, L, Rej) ==
   /\ hist' = Append(hist, [a |-> "Begin", c |-> c, l |-> L, rej |-> {Id(o) : o \in Rej}])
   /\ step' = Out(hist', added, nreset, ncalls', run')
   /\ last' = NoVerdict
-  /\ UNCHANGED <<added, banned, ibanned, nreset>>
+  /\ UNCHANGED <<added, banned, ibanned, orphan, nreset, ntwice>>
 
 (* caller c's call takes its removal list out of the index and returns *)
 End(c) ==
@@ -238,19 +269,28 @@ End(c) ==
                                  model |-> IF s.panic THEN <<"panic">> ELSE [i \in 1..Len(s.ops) |-> Id(s.ops[i])]])
   /\ run' = [run EXCEPT ![c] = Idle]
   /\ step' = Out(hist', added, nreset, ncalls, run')
-  /\ UNCHANGED <<added, nreset, ncalls>>
+  /\ UNCHANGED <<added, orphan, nreset, ncalls, ntwice>>
+
+(* the (limit, filter) pairs a call may use: filters reject up to MaxRej operations of S; `salt` *)
+(* makes the draws of Pick > 0 depend on the state and the caller                                *)
+Filters(S) == {Rej \in SUBSET S : Cardinality(Rej) <= MaxRej}
+Min(a, b) == IF a < b THEN a ELSE b
+Draw(S, salt) == <<RandomElement(Limits \X {salt})[1],
+                   RandomSubset(RandomElement((0..Min(MaxRej, Cardinality(S))) \X {salt})[1], S)>>
+Args(S, salt) == IF Pick > 0 THEN {Draw(S, <<salt, k>>) : k \in 1..Pick}
+                 ELSE Limits \X Filters(S)
 
 Next == \/ \E o \in Op : Set(o)
-        \/ \E L \in Limits : \E Rej \in SUBSET Range(added) : Cardinality(Rej) <= MaxRej /\ Call(L, Rej)
-        \/ \E c \in Callers : \E L \in Limits : \E Rej \in SUBSET Range(Index) :
-              Cardinality(Rej) <= MaxRej /\ Begin(c, L, Rej)
+        \/ \E o \in Op : Set2(o)
+        \/ \E lr \in Args(Range(added), <<hist, 0>>) : Call(lr[1], lr[2])
+        \/ \E c \in Callers : \E lr \in Args(Range(Index), <<hist, c>>) : Begin(c, lr[1], lr[2])
         \/ \E c \in Callers : End(c)
 Spec == Init /\ [][Next]_vars
 
-View == <<added, banned, ibanned, nreset, ncalls, run, last>>
+View == <<added, banned, ibanned, orphan, nreset, ncalls, ntwice, run, last>>
 --------------------------------------------------------------------------------
 TypeOK == /\ Range(added) \subseteq Op /\ Len(added) <= MaxAdd
-          /\ banned \subseteq Range(added) /\ ibanned \subseteq Range(added)
+          /\ banned \subseteq Range(added) /\ ibanned \subseteq Range(added) /\ orphan \subseteq Range(added)
           /\ \A c \in Callers : run[c].on => run[c].bb \subseteq banned /\ run[c].ab <= Len(added)
 Gone == banned \subseteq ibanned  \* what the filter of a returned call rejected left the index
 R0ok == last.r0          \* the call returns
